@@ -1,5 +1,10 @@
 """C20 - an interrupted or truncated trace file is never read as a valid result.
 
+M2: TraceStore.tla - the run output as a store that is RE-written over an older complete run: truncate-on-open, byte
+    appends, kill at any point, an exception unwinding the writer, companion files, temporary file + rename with
+    checkpoints, a reader with a per-path memo; NeverPartial / NeverStale hold as implemented, four deviations refuted.
+    The fault harness below realises the same actions on real files.
+
 M: TraceFile.tla - the single streamed write as byte appends with a crash after any prefix; the reader unpickles one
    object; NoPartialResult (every prefix reads as an error or as the complete result) holds because the payload is ONE
    pickled object whose STOP is its last token inside ONE gzip member; writing several objects, or reading until the
@@ -42,6 +47,26 @@ def model_runs(ck):
 
 
 LAST_RESULTS = {}      # path -> the results dictionary handed to the writer (independent of the file format)
+
+
+def store_model_runs(ck):
+    """TraceStore.tla: the re-written run output with kills, interrupts, companion files and long-lived readers."""
+    base = {"MainLen": 5, "CompLen": 0, "RecordEvery": 2, "TmpAndRename": "FALSE", "EndRecordOnError": "FALSE", "LenientCompanion": "FALSE", "ReaderMemo": "FALSE"}
+    cases = [("TraceStore as implemented (one all-or-nothing file, truncated on open, read afresh every time)", {}, None),
+             ("TraceStore with a companion file that is itself all-or-nothing", {"CompLen": 4}, None),
+             ("DEV a reader process answers from memory for a path it has read before", {"ReaderMemo": "TRUE"}, "NeverStale"),
+             ("DEV the writer emits a well-formed end record while unwinding from an exception", {"EndRecordOnError": "TRUE"}, "NeverPartial"),
+             ("DEV a line-oriented companion file accepted at any record boundary", {"CompLen": 4, "LenientCompanion": "TRUE"}, "NeverPartial"),
+             ("DEV temporary file + rename with checkpoints of the part written so far", {"TmpAndRename": "TRUE"}, "NeverPartial")]
+    jobs = [dict(job="c20_store_%d" % i, module="TraceStore", workers=2, timeout=600,
+                 cfg=tlc.cfg_text(constants=dict(base, **over), spec="Spec", invariants=["NeverPartial", "NeverStale", "CompleteReadsNew"], check_deadlock=False))
+            for i, (_, over, _) in enumerate(cases)]
+    for (label, _, expect), r in zip(cases, tlc.run_many(jobs)):
+        ck.add_tlc(label, r, must_fail=(expect is not None))
+        if expect is None:
+            tlc.require_ok(r, label)
+        elif expect not in r.violated:
+            raise tlc.TLCError("deviation not refuted: %s (%s)" % (label, r.summary()))
 
 
 def make_trace(path, n, chains, entries, seed, clustered=False):
@@ -297,6 +322,7 @@ def run(corrupt=None):
     env.use_repo()
     thorough = ck.tier == "thorough"
     model_runs(ck)
+    store_model_runs(ck)
     workdir = env.scratch("c20_files")
     specs = [("2chains_3entries", 3, 2, 3, False), ("3chains_2entries_clustered", 3, 3, 2, True)]
     if thorough:
